@@ -10,6 +10,7 @@ mod daywalk;
 mod c03;
 mod c06;
 mod c10;
+mod c18;
 mod c19;
 mod queries;
 
@@ -69,6 +70,7 @@ fn main() {
     "C07" => c07::run(&ctx),
     "C08" => c08::run(&ctx),
     "C10" => c10::run(&ctx),
+    "C18" => c18::run(&ctx),
     "C19" => c19::run(&ctx),
     _ => {
       eprintln!("unknown property {}", prop);
